@@ -23,7 +23,7 @@ from pathlib import Path
 from .. import common
 
 PROP = "C10"
-MODULES = ["XpmVerif.Properties.C10", "XpmVerif.Properties.C10Src"]
+MODULES = ["XpmVerif.Properties.C10", "XpmVerif.Properties.C10Src", "XpmVerif.Properties.C10LockIds"]
 PY = sys.executable
 WRAP = str(Path(__file__).resolve().parents[1] / "impl" / "crashwrap.py")
 SIGS = {"kill": int(signal.SIGKILL), "term": int(signal.SIGTERM), "int": int(signal.SIGINT)}
@@ -94,6 +94,12 @@ class Body(Task):
         def pt(name):
             with log.open("a") as f:
                 f.write(name + "\\n")
+            gate = os.environ.get("C10_GATE", "")   # "<point>:<path>": wait at that point until the file exists (the harness opens it)
+            if gate and gate.split(":", 1)[0] == name:
+                import time
+                t0 = time.time()
+                while not os.path.exists(gate.split(":", 1)[1]) and time.time() - t0 < 90:
+                    time.sleep(0.01)
             spec = os.environ.get("C10_BODYKILL", "")
             if spec:
                 at, sig = spec.split(":")
@@ -585,9 +591,65 @@ def monitors(ctx, case, obs):
 # ---------------------------------------------------------------- the enumeration
 
 
+# A real case that ends with a signal exit which neither the scenario sent (SIGKILL/SIGTERM/SIGINT) nor the code under test raises is a
+# crash of the *tracing interpreter* (seen: SIGSEGV at interpreter exit under sys.settrace + the notification thread), not behaviour of
+# the code under test: it never becomes a verdict and is never mapped to an expected status either.  The case is re-run (3 attempts);
+# an attempt that ends normally is used; a case whose attempts all crash is excluded, counted (`interpreter-crash`) and noted; a run with
+# more than 5 % excluded cases ends as a harness error (exit 2).
+CRASH_RC = {-int(signal.SIGSEGV): "SIGSEGV", -int(signal.SIGABRT): "SIGABRT", -int(signal.SIGBUS): "SIGBUS", -int(signal.SIGILL): "SIGILL"}
+CRASH_ATTEMPTS = 3
+CRASH = {"cases": 0, "excluded": [], "retried": 0}
+
+
+def _crashed(rcs):
+    return [CRASH_RC[r] for r in rcs if isinstance(r, int) and r in CRASH_RC]
+
+
+def _crash_desc(case):
+    return json.dumps({k: v for k, v in case.items() if k in CASE_KEYS + ("l1", "point", "id", "n") and v is not None}, sort_keys=True)
+
+
+def run_case_retry(tpl, case):
+    o = None
+    for attempt in range(CRASH_ATTEMPTS):
+        o = run_case(tpl, case)
+        sigs = _crashed([o["rc"], o["relaunch"]["rc"]])
+        if not sigs:
+            o["crash_attempts"] = attempt
+            return o
+    o["crash_attempts"] = CRASH_ATTEMPTS
+    o["interpreter_crash"] = sigs
+    return o
+
+
+def crash_account(ctx, case, crash_attempts, excluded_sigs=None, family="crash-point"):
+    """book-keeping of one real case for the interpreter-crash rule; returns True when the case is excluded"""
+    CRASH["cases"] += 1
+    if crash_attempts and not excluded_sigs:
+        CRASH["retried"] += 1
+        ctx.count("interpreter-crash-retried", f"{family} {_crash_desc(case)}: {crash_attempts} crashed attempt(s), then a normal end (used)")
+    if excluded_sigs:
+        d = f"{family} {_crash_desc(case)}: {CRASH_ATTEMPTS} attempts all ended by {'/'.join(sorted(set(excluded_sigs)))}"
+        CRASH["excluded"].append(d)
+        ctx.count("interpreter-crash", d)
+        ctx.notes.append(f"excluded from the comparison (crash of the tracing interpreter, not behaviour of the code under test): {d}")
+        return True
+    return False
+
+
+def crash_verdict(ctx):
+    """more than 5 % of the real cases excluded: the run says nothing (harness error, exit 2)"""
+    n, x = CRASH["cases"], len(CRASH["excluded"])
+    ctx.extra_cov["interpreter_crash_excluded"] = x
+    ctx.extra_cov["interpreter_crash_retried_ok"] = CRASH["retried"]
+    if n and x * 20 > n:
+        raise RuntimeError(f"{x} of {n} real cases excluded because the tracing interpreter crashed in all {CRASH_ATTEMPTS} attempts (> 5 %): "
+                           f"not a verdict; first: {CRASH['excluded'][0]}")
+
+
 def run_all(ctx, tpl, cases):
     with ThreadPoolExecutor(WORKERS) as ex:
-        return list(ex.map(lambda c: run_case(tpl, c), cases))
+        return list(ex.map(lambda c: run_case_retry(tpl, c), cases))
 
 
 def baseline(ctx, tpl):
@@ -596,6 +658,8 @@ def baseline(ctx, tpl):
     seq = {"scenario": list(SCENARIOS[0]), "bodykill": SEQ_POINT, "sig": "term", "k": 0}  # lines of the handler path
     obs = run_all(ctx, tpl, cases + [seq])
     for c, o in zip(cases + [seq], obs):
+        if o.get("interpreter_crash"):
+            raise RuntimeError(f"baseline {c}: the tracing interpreter crashed in all {CRASH_ATTEMPTS} attempts ({o['interpreter_crash']})")
         if o["rc"] == "timeout" or o["nlines"] == 0:
             raise RuntimeError(f"baseline {c} did not run: {o['rc']} {o['stderr']}")
     MF[0] = probe_marker_first(obs[3])
@@ -654,6 +718,9 @@ def plan_opcodes(ctx, tpl, bobs, thorough):
     obs = run_all(ctx, tpl, count)
     cases = []
     for w, o in zip(wins, obs):
+        if o.get("interpreter_crash"):
+            ctx.count("interpreter-crash", f"bytecode-window counting run {_crash_desc(w)}")
+            continue
         n = o["nops"]
         ctx.count("opcode_window", f"{'/'.join(w['scenario'])}{':seq' if 'k2' in w else ''} from line event {w.get('k2') or w['k']}: {n} bytecodes")
         js = list(range(1, n + 1))
@@ -689,6 +756,8 @@ def evaluate(ctx, tpl, cases, unreg, with_model=True):
     obs = run_all(ctx, tpl, cases)
     lines, idx = [], []
     for i, (c, o) in enumerate(zip(cases, obs)):
+        if crash_account(ctx, c, o.get("crash_attempts", 0), o.get("interpreter_crash")):
+            continue
         if o["rc"] == "timeout" or o["relaunch"]["rc"] == "timeout":
             raise RuntimeError(f"case {c} timed out: {o['stderr']}")
         if c["sig"] != "none" and not c.get("bodykill") and o["kill"] is None:
@@ -824,7 +893,9 @@ def correspond(ctx):
     except Exception as e:
         ctx.notes.append(f"coverage query failed: {e}")
     overlapping_launches(ctx)
+    three_launches(ctx)
     scheduler_launches(ctx)
+    crash_verdict(ctx)
 
 
 def source_order(ctx, bcases, bobs):
@@ -854,6 +925,180 @@ def source_order(ctx, bcases, bobs):
                          f"sequence {'read off the AST' if info.get('translated') else 'the model assumes (translator fell back)'} ({name})")
 
 
+# ---------------------------------------------------------------- three launches with a failure in between
+
+THREE_L1 = ["term", "int", "exc", "exit3", "kill"]   # how the first launch ends without success marker
+
+
+def _spawn_hand(tpl, jd, tag, outcome, gate=None):
+    """the job script started by hand (model action `spawn`: no scheduler-side lock, no pid file), under the effect taps"""
+    env = dict(os.environ, C10_BODYLOG=str(jd / f"bodylog-{tag}"), C10_OUTCOME=outcome, C10_BODYKILL="", C10_SHAPE="plain",
+               C10_BODYACT="", C10_OPJ="0", C10_GATE=f"{gate[0]}:{gate[1]}" if gate else "")
+    with open(jd / f"stderr-{tag}", "a") as err:
+        return subprocess.Popen([PY, WRAP, str(jd / f"{tpl.name}.py"), "0", "0", str(jd / f"efflog-{tag}")], env=env,
+                                stdout=subprocess.DEVNULL, stderr=err, cwd="/")
+
+
+def _until(cond, timeout):
+    t0 = time.time()
+    while time.time() - t0 < timeout:
+        if cond():
+            return True
+        time.sleep(0.02)
+    return bool(cond())
+
+
+def _blog(jd, tag):
+    p = jd / f"bodylog-{tag}"
+    return p.read_text().split() if p.exists() else []
+
+
+def _queued(proc, lockpath, efflog):
+    """is the process waiting for the run lock?  effect tap: `lock-wait` without `lock-acquired`; /proc: it has the lock file open"""
+    ev = [e["ev"] for e in _read_log(efflog)]
+    if "lock-wait" not in ev or "lock-acquired" in ev:
+        return False
+    try:
+        for fd in os.listdir(f"/proc/{proc.pid}/fd"):
+            try:
+                if os.readlink(f"/proc/{proc.pid}/fd/{fd}").split(" (deleted)")[0] == str(lockpath):
+                    return True
+            except OSError:
+                pass
+    except OSError:
+        pass
+    return False
+
+
+def run_three(tpl, case):
+    """L1 runs the body (held at a body point); L2 is started and queues on the run lock; L1 ends WITHOUT success marker (SIGTERM |
+    SIGINT | exception | exit 3 | SIGKILL); L2 gets the lock and runs the body (held at a point); L3 is started while L2's body runs
+    and must queue; L2 finishes (success marker); L3 gets the lock and must not run the body.  If L3 is inside the body anyway it gets
+    a SIGTERM.  Then an undisturbed fourth launch.  Every wait is on an observable (body log, effect tap, /proc), not on time."""
+    mode, point = case["l1"], case.get("point", "b1")
+    jd = tpl.instantiate("fresh")
+    lockpath, T = (jd / tpl.rel["lock"]).resolve(), 90
+    ex = lambda k: (jd / tpl.rel[k]).exists()
+    o = {"error": None}
+    procs = []
+    try:
+        g = {i: jd / f"gate{i}" for i in (1, 2, 3)}
+        p1 = _spawn_hand(tpl, jd, 1, {"exc": "exc", "exit3": "exit3"}.get(mode, "ok"), (point, g[1]))
+        procs.append(p1)
+        if not _until(lambda: point in _blog(jd, 1), T):
+            raise RuntimeError("L1 did not reach its body point")
+        p2 = _spawn_hand(tpl, jd, 2, "ok", ("b1", g[2]))
+        procs.append(p2)
+        if not _until(lambda: _queued(p2, lockpath, jd / "efflog-2"), T):
+            raise RuntimeError("L2 did not queue on the run lock")
+        time.sleep(0.1)
+        o["l2_started_body_while_l1"] = "start" in _blog(jd, 2)
+        if mode in SIGS:
+            os.kill(p1.pid, SIGS[mode])
+        else:
+            g[1].touch()
+        o["rc1"] = p1.wait(timeout=T)
+        o["after_l1"] = {"done": ex("done"), "failed": ex("failed"), "lockfile": lockpath.exists()}
+        _until(lambda: "b1" in _blog(jd, 2) or p2.poll() is not None, T)
+        o["l2_body"] = "b1" in _blog(jd, 2)
+        if not o["l2_body"] and p2.poll() is None:
+            raise RuntimeError("L2 neither reached its body point nor ended")   # slow machine: no verdict from this case
+        p3 = _spawn_hand(tpl, jd, 3, "ok", ("b1", g[3]))
+        procs.append(p3)
+        if not _until(lambda: any(e["ev"] == "lock-wait" for e in _read_log(jd / "efflog-3")), T):
+            raise RuntimeError("L3 did not reach the run lock")
+        # L2 is (still) held inside its body: L3 must now be waiting.  Grace for a wrongly granted lock to show as a body start
+        o["l3_body_while_l2"] = bool(o["l2_body"]) and _until(lambda: "start" in _blog(jd, 3), 1.0) and p2.poll() is None
+        g[2].touch()
+        o["rc2"] = p2.wait(timeout=T)
+        o["after_l2"] = {"done": ex("done"), "failed": ex("failed")}
+        if "start" in _blog(jd, 3) and p3.poll() is None and _until(lambda: "b1" in _blog(jd, 3) or p3.poll() is not None, 10) and p3.poll() is None:
+            o["l3_signalled_in_body"] = True
+            os.kill(p3.pid, signal.SIGTERM)
+        g[3].touch()
+        o["rc3"] = p3.wait(timeout=T)
+        o["after_l3"] = {"done": ex("done"), "failed": ex("failed"), "pid": ex("pid")}
+        p4 = _spawn_hand(tpl, jd, 4, "ok")
+        procs.append(p4)
+        o["rc4"] = p4.wait(timeout=T)
+        o["final"] = {"done": ex("done"), "failed": ex("failed"), "pid": ex("pid")}
+        o["logs"] = {str(i): _blog(jd, i) for i in (1, 2, 3, 4)}
+    except (RuntimeError, subprocess.TimeoutExpired) as e:
+        o["error"] = f"{type(e).__name__}: {e}"[:200]
+    finally:
+        for p in procs:
+            if p.poll() is None:
+                p.kill()
+                p.wait()
+        shutil.rmtree(jd.parent, ignore_errors=True)
+    return o
+
+
+def three_monitors(case, o):
+    """the sentences of the property on three overlapping launches (implementation only)"""
+    fails, logs = [], o["logs"]
+    what = f"three launches, L1 ends by {case['l1']} at body point {case.get('point', 'b1')} with L2 queued on the run lock, L3 started while L2 runs its body"
+    if o["l2_started_body_while_l1"]:
+        fails.append(("bodies-overlap", f"{what}: L2 started its body while L1 was inside its own"))
+    if not o["after_l1"]["done"] and not o["l2_body"]:
+        fails.append(("no-body-without-done", f"{what}: L1 left no success marker but L2 did not run the body (log {logs['2']})"))
+    if o["l3_body_while_l2"]:
+        fails.append(("bodies-overlap", f"{what}: L3 started its body (log {logs['3']}) while L2 was inside its own -- two processes hold the run lock (lock file after L1: {'exists' if o['after_l1']['lockfile'] else 'GONE'})"))
+    succ = [i for i, l in logs.items() if "end" in l]
+    if len(succ) > 1:
+        fails.append(("body-run-again-after-success", f"{what}: {len(succ)} successful executions of the body (launches {succ})"))
+    if o["after_l2"]["done"] and not o["l3_body_while_l2"] and "start" in logs["3"]:
+        fails.append(("body-run-again-after-success", f"{what}: L3 ran the body after L2 had written the success marker"))
+    if "end" in logs["2"] and not o["after_l2"]["done"]:
+        fails.append(("success-without-marker", f"{what}: L2 completed its body but there is no success marker"))
+    if o["after_l3"]["done"] and o["after_l3"]["failed"]:
+        fails.append(("both-markers", f"{what}: success and failure marker side by side after L3 ended (L3 signalled inside its body: {bool(o.get('l3_signalled_in_body'))})"))
+    if o["final"]["done"] and "start" in logs["4"]:
+        fails.append(("body-run-again-after-success", f"{what}: the fourth launch ran the body although the success marker existed"))
+    if o["final"]["pid"]:
+        fails.append(("own-exit-pid-left", f"{what}: pid file left"))
+    return fails
+
+
+def three_launches(ctx, cases=None):
+    """mutual exclusion on the lock *inode* (Model/RunnerLockIds): needs a launch queued on the lock while the holder ends without success
+    marker and a third launch while the second runs"""
+    ctx.rule += ("; plus three launches of one job script started by hand: L1 held inside its body, L2 queued on the run lock (read from the effect "
+                 "tap and /proc/<pid>/fd), L1 ends without success marker by SIGTERM | SIGINT | exception | exit 3 | SIGKILL at a body point, L3 "
+                 "started while L2 runs its body, then a fourth undisturbed launch; every wait is on an observable")
+    tpl = get_template(ctx)
+    if cases is None:
+        points = BODY_POINTS if ctx.tier == "thorough" else [BODY_POINTS[1]]
+        cases = [{"l1": m, "point": p} for p in points for m in THREE_L1]
+    def attempts(c):
+        o = None
+        for a in range(CRASH_ATTEMPTS):
+            o = run_three(tpl, c)
+            sigs = _crashed([o.get(f"rc{i}") for i in (1, 2, 3, 4)])
+            if not sigs:
+                o["crash_attempts"] = a
+                return o
+        o["crash_attempts"], o["interpreter_crash"] = CRASH_ATTEMPTS, sigs
+        return o
+
+    with ThreadPoolExecutor(min(len(cases), 8)) as ex:
+        outs = list(ex.map(attempts, cases))
+    errs = 0
+    for case, o in zip(cases, outs):
+        if crash_account(ctx, case, o.get("crash_attempts", 0), o.get("interpreter_crash"), family="three-launches"):
+            continue
+        if o["error"]:
+            errs += 1
+            ctx.count("three_launch_errors", o["error"][:60])
+            continue
+        ctx.case({"three": case}, True)
+        ctx.count("three_launches", f"L1 {case['l1']}: L3 {'IN BODY' if o['l3_body_while_l2'] else 'queued'} while L2 runs; lock file after L1 {'kept' if o['after_l1']['lockfile'] else 'gone'}")
+        for key, what in three_monitors(case, o):
+            ctx.monitor_fail(f"overlapping-launch:three:{key}", what, {"three": case})
+    if errs == len(cases) and cases:
+        raise RuntimeError(f"no three-launch case could be run: {outs[0]['error']}")
+
+
 def scheduler_launches(ctx):
     """the sentences of the property on directories of jobs that the REAL scheduler launched (experiment -> aio_start ->
     aio_run -> job script), with launchers whose submission call gives the hand back late (at once | fixed delay | only
@@ -880,7 +1125,18 @@ def overlapping_launches(ctx):
         cases.append({"id": f"c10race{i}", "n": k, "x": 100 + i, "hold": rng.choice([0.3, 0.5]), "fail_first": False,
                       "offsets": [0.0] + [round(rng.choice([0.05, 0.1, 0.2]), 3) for _ in range(k - 1)]})
     outs = c05.run_worker_cases(ctx, "race", cases, parallel=ctx.scale(6, 12))
+    tries = {c["id"]: 0 for c in cases}
+    for _ in range(CRASH_ATTEMPTS - 1):   # same rule: a launch that ended by SIGSEGV/SIGABRT/SIGBUS/SIGILL -> the case is run again
+        again = [i for i, o in enumerate(outs) if _crashed(o.get("rcs") or [])]
+        if not again:
+            break
+        for i, o2 in zip(again, c05.run_worker_cases(ctx, "race", [cases[i] for i in again], parallel=ctx.scale(6, 12))):
+            tries[cases[i]["id"]] += 1
+            outs[i] = o2
     for case, o in zip(cases, outs):
+        sigs = _crashed(o.get("rcs") or [])
+        if crash_account(ctx, case, tries[case["id"]], sigs, family="overlapping-launches"):
+            continue
         if o.get("error"):
             ctx.count("overlap_errors", o["error"][:60])
             continue
@@ -925,6 +1181,10 @@ def replay(ctx, obj):
     if sched:  # histories of scheduler-launched jobs
         from . import c10x_sched
         c10x_sched.evaluate(ctx, sched)
+    three = [f["case"]["three"] for f in obj.get("failures", []) if isinstance(f.get("case"), dict) and "three" in f["case"]]
+    if three:
+        three_launches(ctx, three)
+        sched = sched or three
     for d in obj.get("disagreements", []):
         if isinstance(d.get("case"), dict) and "scenario" in d["case"]:
             cases.append({k: v for k, v in d["case"].items() if k != "loc"})
